@@ -268,6 +268,8 @@ def run(repo: Repo, tier: str) -> Report:
        f"other cell-dependent terms: {celldep}", f"cell dependence of {norm_stmt(final.stmt)}")
     from ..rules import r_truthy
     r_truthy(rep, repo, "PixelAlgorithms", "spi", ["nodata"], "0 is a legitimate nodata value (it is the one the test-suite uses); a truth test silently replaces or drops it")
+    from ..rules import r_stateless
+    r_stateless(rep, repo, [('PixelAlgorithms', 'spi')])
     rep.floor("C08 obligations", len(rep.obls), 20)
     return rep
 
